@@ -10,6 +10,9 @@ use std::path::{Path, PathBuf};
 use crate::common::debug;
 
 use std::str::FromStr;
+#[cfg(rfsm_verif)]
+use crate::verif_seams::sync::atomic::{AtomicU32, AtomicUsize, Ordering};
+#[cfg(not(rfsm_verif))]
 use std::sync::atomic::{AtomicU32, AtomicUsize, Ordering};
 use std::time::{SystemTime, UNIX_EPOCH};
 use std::{env, mem, str, string::String};
@@ -41,6 +44,13 @@ pub type XReader<'a> = Reader<&'a [u8]>;
 
 static DOC_ID_COUNTER: AtomicU32 = AtomicU32::new(1);
 static SOURCE_ID_COUNTER: AtomicUsize = AtomicUsize::new(1);
+
+/// Verification hook: see [crate::fsm::verif_reset_counters].
+#[cfg(rfsm_verif)]
+pub fn verif_reset_counters() {
+    DOC_ID_COUNTER.store(1, Ordering::Relaxed);
+    SOURCE_ID_COUNTER.store(1, Ordering::Relaxed);
+}
 
 pub static INCLUDE_PATH_ARGUMENT_OPTION: ArgOption = ArgOption {
     name: "includePaths",
